@@ -17,7 +17,7 @@ PROPERTY_ID = "C16"
 RULE = (
     "Generated: strict converters (any delimiter) and tables of string cells (1-4 columns, 0-8 rows, any column index; "
     "cells are known / unknown URIs and CURIEs, delimiter-free strings, '', and quoting-sensitive strings containing the "
-    "separator, quotes, newlines; with or without header; tab, ',', '|' or ';' separator), all flag combinations (strict, "
+    "separator, quotes, newlines; with or without header, whose cells are plain names or the same kinds of cells; tab, ',', '|' or ';' separator), all flag combinations (strict, "
     "passthrough, ambiguous) and target_column absent / new / existing. One evaluation = one bulk call compared cell by "
     "cell with the corresponding scalar method (differential): pandas - target column == scalar results with None->NA, "
     "all other columns, index and source column untouched, bulk raises the scalar's exception type when a scalar call "
@@ -96,6 +96,10 @@ def table_cases(draw, tier="quick", kind="pd"):
     else:
         case["func"] = draw(st.sampled_from(["file_compress", "file_expand"]))
         case["header"] = draw(st.booleans())
+        # header cells are ordinary CSV cells too: plain names, quoting-sensitive text (separator, quotes, line breaks inside
+        # a quoted cell), empty, repeated, or text that LOOKS convertible (a header is never converted)
+        if case["header"] and draw(st.integers(0, 2)) > 0:
+            case["header_cells"] = draw(cells(recs, d, ncols))
         case["sep"] = draw(st.sampled_from([None, None, ",", "|", ";"]))
         case["as_str_path"] = draw(st.booleans())
         # fault injection for the atomicity clause: a short or empty row at a generated position
@@ -188,12 +192,16 @@ def check_pd(case, stats: Stats) -> None:
     _classify(case, results, stats)
 
 
+def _header_cells(case):
+    return list(case.get("header_cells") or [f"h{i}" for i in range(case["ncols"])])
+
+
 def _write_table(path: Path, case, rows_with_fault):
     sep = case["sep"] or "\t"
     buf = io.StringIO()
     w = csv.writer(buf, delimiter=sep)
     if case["header"]:
-        w.writerow([f"h{i}" for i in range(case["ncols"])])
+        w.writerow(_header_cells(case))
     for r in rows_with_fault:
         w.writerow(r)
     path.write_bytes(buf.getvalue().encode("utf-8"))
@@ -247,7 +255,7 @@ def check_file(case, stats: Stats) -> None:
         # tolerated structural fault: every well-formed row must still be converted, in order
         stats.cls("file:fault-row-tolerated")
         parsed = list(csv.reader(io.StringIO(after.decode("utf-8"), newline=""), delimiter=sep))
-        want_rows = ([[f"h{i}" for i in range(case["ncols"])]] if case["header"] else [])
+        want_rows = ([_header_cells(case)] if case["header"] else [])
         for r, (_, val) in zip(rows, results):
             rr = list(r)
             rr[col] = val if val is not None else ""
@@ -259,7 +267,7 @@ def check_file(case, stats: Stats) -> None:
     parsed = list(csv.reader(io.StringIO(after.decode("utf-8"), newline=""), delimiter=sep))
     exp_rows = []
     if case["header"]:
-        exp_rows.append([f"h{i}" for i in range(case["ncols"])])
+        exp_rows.append(_header_cells(case))
     for r, (_, val) in zip(rows, results):
         rr = list(r)
         rr[col] = val if val is not None else ""
@@ -267,6 +275,8 @@ def check_file(case, stats: Stats) -> None:
     if parsed != exp_rows:
         raise Violation(f"{case['func']}: file holds {parsed!r}, element-wise scalar {name} gives {exp_rows!r}")
     stats.cls("file:" + case["func"])
+    if case["header"] and any(any(ch in c for ch in '"\n\r\t,|;') for c in _header_cells(case)):
+        stats.cls("file:quoting-sensitive-header")
     _classify(case, results, stats)
 
 
@@ -274,5 +284,5 @@ SUBS = [
     Sub(name="pandas", check=check_pd, strategy=lambda tier: table_cases(tier, "pd"), n={"quick": 700, "thorough": 2500},
         required_classes=("pd:pd_compress", "pd:pd_expand", "pd:pd_standardize_prefix", "pd:pd_standardize_curie", "pd:pd_standardize_uri", "pd:scalar-raises", "nt:non-convertible-cell")),
     Sub(name="files", check=check_file, strategy=lambda tier: table_cases(tier, "file"), n={"quick": 900, "thorough": 3000},
-        required_classes=("file:file_compress", "file:file_expand", "file:raises", "nt:failing-row-not-first", "nt:quoting-sensitive-cell")),
+        required_classes=("file:file_compress", "file:file_expand", "file:quoting-sensitive-header", "file:raises", "nt:failing-row-not-first", "nt:quoting-sensitive-cell")),
 ]
